@@ -52,6 +52,11 @@ ListProgs ==
     \cup {DataHead \o <<Tk("read"), Sym("X"), Tk("comma")>> \o Ix("Q", as) : as \in Args(1) \cup Args(2)}
     \cup {<<Tk("input")>> \o Commas(as) : as \in [1..1 -> {Sym("X"), Sym("S$"), TkN(NInt(0))}] \cup [1..2 -> {Sym("X"), Sym("S$"), TkN(NInt(0))}]}
     \cup {<<Tk("input")>> \o Ix("Q", as) \o <<Tk("colon"), Tk("print")>> \o Ix("Q", as) : as \in Args(1) \cup Args(2)}
+    \* a DEF that reuses the name of a builtin: the builtin wins at run time, so the checker must judge calls by the builtin
+    \cup {<<Tk("def"), Sym(f), Tk("leftparen"), Sym("A"), Tk("comma"), Sym("B"), Tk("rightparen"), Tk("equals"), Sym("A"), Tk("plus"), Sym("B"), Tk("colon"), Tk("print")>>
+             \o Ix(f, as) : f \in {"RND", "INT", "ABS"}, as \in [1..1 -> {TkN(NInt(2)), TkS("stringliteral", B("A"))}] \cup [1..2 -> {TkN(NInt(2)), TkS("stringliteral", B("A"))}]}
+    \cup {<<Tk("def"), Sym(f), Tk("leftparen"), Sym("A$"), Tk("rightparen"), Tk("equals"), TkN(NInt(1)), Tk("colon"), Sym("X"), Tk("equals")>>
+             \o Ix(f, as) : f \in {"INT", "ABS"}, as \in [1..1 -> {TkN(NInt(2)), TkS("stringliteral", B("A"))}]}
     \cup {<<Tk("for"), Sym("I"), Tk("equals"), a, Tk("to"), b, Tk("step"), c, Tk("colon"), Tk("next"), Sym("I")>> : a \in T4, b \in T4, c \in T4}
     \cup {<<Tk("if"), a, Tk("then"), Tk("print"), b, Tk("else"), Tk("print")>> \o Ix("Q", as) : a \in T4, b \in T4, as \in Args(2)}
 
